@@ -309,7 +309,56 @@ def recompiler(repo):
                 return True
         return False
 
-    return _one([f for f in repo.all_funcs() if f.parent is None and f.cls is None and ok(f)], "re-compiler (calls compile and FunctionType)")
+    f = _one([f for f in repo.all_funcs() if f.parent is None and f.cls is None and ok(f)], "re-compiler (calls compile and FunctionType)")
+    _unroll_planting_loops(f)
+    return f
+
+
+def _unroll_planting_loops(f):
+    """`for name, value in {<const>: <expr>, ..}.items(): X.__globals__[name] = value` (the table written in place or
+    held in a local assigned once) is what its straight-line unrolling is: the rules that read the plantings see one
+    store per entry.  Done once, in place, on the model's copy of the function."""
+    if getattr(f, "_plantings_unrolled", False):
+        return
+    f._plantings_unrolled = True
+
+    def table_of(it):
+        if isinstance(it, ast.Call) and isinstance(it.func, ast.Attribute) and it.func.attr == "items" and not it.args:
+            d = it.func.value
+            if isinstance(d, ast.Name):
+                defs = [a.value for a in ast.walk(f.node) if isinstance(a, ast.Assign) and len(a.targets) == 1 and isinstance(a.targets[0], ast.Name) and a.targets[0].id == d.id]
+                d = defs[0] if len(defs) == 1 else None
+            if isinstance(d, ast.Dict) and d.keys and all(isinstance(k, ast.Constant) and isinstance(k.value, str) for k in d.keys):
+                return d
+        return None
+
+    class Unroll(ast.NodeTransformer):
+        def visit_For(self, node):
+            self.generic_visit(node)
+            d = table_of(node.iter)
+            t = node.target
+            if d is None or node.orelse or not (isinstance(t, ast.Tuple) and len(t.elts) == 2 and all(isinstance(e, ast.Name) for e in t.elts)):
+                return node
+            kname, vname = t.elts[0].id, t.elts[1].id
+            ok = all(
+                isinstance(st, ast.Assign) and len(st.targets) == 1 and isinstance(st.targets[0], ast.Subscript) and isinstance(st.targets[0].value, ast.Attribute) and st.targets[0].value.attr == "__globals__" and isinstance(st.targets[0].slice, ast.Name) and st.targets[0].slice.id == kname and isinstance(st.value, ast.Name) and st.value.id == vname
+                for st in node.body
+            )
+            if not ok:
+                return node
+            import copy
+
+            out = []
+            for k, v in zip(d.keys, d.values):
+                for st in node.body:
+                    new = copy.deepcopy(st)
+                    new.targets[0].slice = ast.copy_location(ast.Constant(value=k.value), st.targets[0].slice)
+                    new.value = ast.copy_location(copy.deepcopy(v), st.value)
+                    out.append(ast.copy_location(new, st))
+            return out
+
+    Unroll().visit(f.node)
+    ast.fix_missing_locations(f.node)
 
 
 @_memo
